@@ -79,6 +79,17 @@ def sweep_slack(quick):
                 yield {"sweep": "slack", "spec": spec}
 
 
+def sweep_sizes(quick):
+    """every partition size in a consecutive range (free sectors after the data), one and two partitions"""
+    for size in range(6, 140 if quick else 400):
+        spec = one_file_spec(300, 0, 300, "asc")
+        spec["parts"][0]["size"] = size
+        if size % 3 == 0:
+            spec["parts"].append({"size": 6 + size % 7, "vols": [{"name": "VOLB", "dir": [3], "files": [
+                {"name": "SECOND", "n": 200, "chain": [4], "seq": 2, "rate": 22050}]}]})
+        yield {"sweep": "sizes", "spec": spec}
+
+
 def sweep_header(quick):
     for rate in (0, 1, 22050, 44100, 48000, 65535):
         for sid in (1, 3):
@@ -199,7 +210,7 @@ class Check(CheckBase):
     rule = ("union of exhaustive sweeps over writer-generated images: (alloc) all injective assignments of pool "
             "sectors to directory+2 file chains for sector-count shapes (1,1)..(3,1) [thorough adds (3,2),(1,3), "
             "2-sector directory]; (length) boundary word counts x start/end markers x chain order; (header) rate x "
-            "sample id x file type x volume type; (slack) chains longer than the file needs x order x markers; (structure) partitions{1,2,3} x volumes{0,1,2} x files{0..3} x "
+            "sample id x file type x volume type; (sizes) every partition size 6..139 sectors (thorough ..399), alternately followed by a second partition; (slack) chains longer than the file needs x order x markers; (structure) partitions{1,2,3} x volumes{0,1,2} x files{0..3} x "
             "volume type x directory storage, L/R pair, non-sample siblings, trailing bytes; (pairs) all pairs of "
             "single deviations. non-trivial = non ascending-contiguous multi-sector chain, or file filling its last "
             "sector exactly, or >1 partition/volume")
@@ -208,7 +219,7 @@ class Check(CheckBase):
 
     def shards(self):
         cases = []
-        for sw in (sweep_length, sweep_slack, sweep_header, sweep_structure, sweep_pairs, sweep_alloc):
+        for sw in (sweep_length, sweep_slack, sweep_sizes, sweep_header, sweep_structure, sweep_pairs, sweep_alloc):
             cases.extend(sw(self.quick))
         self._n = len(cases)
         return self.chunk(cases, 24)
